@@ -13,6 +13,7 @@ import importlib
 import json
 import multiprocessing
 import os
+import signal
 import sys
 import time
 import traceback
@@ -52,6 +53,17 @@ class _HarnessAbort(BaseException):
 
 class _StopShrink(BaseException):
     pass
+
+
+class _CaseTimeout(BaseException):
+    pass
+
+
+CASE_LIMIT_S = int(os.environ.get("VERIF_CASE_LIMIT", "120"))
+
+
+def _on_alarm(signum, frame):
+    raise _CaseTimeout()
 
 
 # ------------------------------------------------------------------ known findings
@@ -155,11 +167,21 @@ def _guarded(col, case, source):
         # candidate the shrinker accepts is smaller than the previous one, so last_failure is the current best). Only
         # the size of the reported example depends on this wall-clock budget, never the verdict.
         raise _StopShrink()
+    signal.signal(signal.SIGALRM, _on_alarm)
+    signal.alarm(CASE_LIMIT_S)
     try:
         unlisted = col.run(case)
+    except _CaseTimeout:
+        # a single small case normally takes milliseconds; one that runs for minutes means the code under test does not
+        # terminate on it. A time limit is never a verdict: the run stops with a harness error and shows the case.
+        col.harness_error = (f"case from {source} did not finish within {CASE_LIMIT_S} s (no verdict; the code under test "
+                             f"probably does not terminate on it):\ncase={json.dumps(case, default=str)[:3000]}")
+        raise _HarnessAbort()
     except Exception:  # anything escaping check() is a defect of the harness, never a verdict
         col.harness_error = f"exception in check() on case from {source}:\n{traceback.format_exc()}\ncase={json.dumps(case, default=str)[:3000]}"
         raise _HarnessAbort()
+    finally:
+        signal.alarm(0)
     if unlisted:
         col.last_failure = dict(case=_jsonable(case), violations=unlisted, source=source, digest=digest(case))
         if col.first_failure_at is None:
@@ -378,14 +400,17 @@ def main(argv=None):
         if hits:
             print(f"KNOWN-FINDING: property={pid} {e['what']} (reproduced {sum(hits.values())}x: "
                   f"{', '.join(sorted(hits))[:300]})")
-    if harness_errors:
-        sys.stderr.write("harness error:\n" + harness_errors[0] + "\n")
-        return 2
     if replays:
+        # a reproducible violation found by one shard stands, whatever stopped another shard
         for sig, detail, path in replays:
             print(f"  violation {sig}: {detail[:600]}")
             print(f"VIOLATION property={pid} replay={path}")
+        if harness_errors:
+            sys.stderr.write("harness error in another shard (does not affect the violation above):\n" + harness_errors[0] + "\n")
         return 1
+    if harness_errors:
+        sys.stderr.write("harness error:\n" + harness_errors[0] + "\n")
+        return 2
     if vacuous:
         sys.stderr.write(f"harness error: only {len(nontrivial)} distinct non-trivial cases out of {evaluations} "
                          f"(floor {min_nt}); a vacuous run must not look like a pass\n")
